@@ -96,6 +96,11 @@ class MystParser(SphinxParser):
 
         parser = create_md_parser(config, SphinxRenderer)
         parser.options["document"] = document
+        # terminate the last line, as for nested parses: some block rules of the plugins
+        # read the first character of a line unchecked, and for an empty last line of
+        # a container (a final ``>``) that is the end of the text
+        if not inputstring.endswith("\n"):
+            inputstring += "\n"
         parser.render(inputstring)
 
         # replace raw nodes if raw is not allowed
